@@ -63,16 +63,78 @@ type progResult struct {
 }
 
 type progTree struct {
-	node    *lnode
+	node    *lnode // private copy of the description; "replace" steps change it
 	top     schema.Type
-	pending []*schema.ObjectSchema // objects of a top scope that is not constructed yet (root first)
-	refs    []refRec
+	pending []*schema.ObjectSchema       // objects of a top scope that is not constructed yet (root first)
+	refs    map[string]*schema.RefSchema // by position
 	scopes  map[string]*schema.ScopeSchema
 }
 
+// orderedRefs lists the references of the tree as it is now, in traversal order.
+func (pt *progTree) orderedRefs(owner string) []refRec {
+	var out []refRec
+	for _, r := range collectRefs(pt.node, owner) {
+		out = append(out, refRec{r.path, pt.refs[r.path]})
+	}
+	return out
+}
+
+func copyNode(n *lnode) *lnode {
+	b, err := json.Marshal(n)
+	if err != nil {
+		panic(err)
+	}
+	var c lnode
+	if err := json.Unmarshal(b, &c); err != nil {
+		panic(err)
+	}
+	return &c
+}
+
+// setObject replaces (or adds) the object `id` of the scope at `path` in a description.
+func setObject(n *lnode, path string, id string, obj *lnode) {
+	var walk func(n *lnode, p []string)
+	walk = func(n *lnode, p []string) {
+		if n == nil {
+			return
+		}
+		switch n.T {
+		case "list":
+			walk(n.Item, with(p, "[]"))
+		case "map":
+			walk(n.V, with(p, "{v}"))
+		case "obj":
+			for _, k := range n.Props {
+				walk(k.N, with(p, k.Name))
+			}
+		case "oneOf":
+			for _, k := range n.Members {
+				walk(k.N, with(p, k.Name))
+			}
+		case "scope":
+			if pstr(p) == path {
+				for i, k := range n.Objs {
+					if k.Name == id {
+						n.Objs[i].N = obj
+						return
+					}
+				}
+				n.Objs = append(n.Objs, lkid{id, obj})
+				return
+			}
+			for _, k := range n.Objs {
+				walk(k.N, with(p, k.Name))
+			}
+		}
+	}
+	walk(n, nil)
+}
+
 type progBuilder struct {
-	objs  map[*schema.ObjectSchema]objAddr
-	trees map[string]*progTree
+	// literal: scopes are written as plain &ScopeSchema{} values (nothing applies itself)
+	literal bool
+	objs    map[*schema.ObjectSchema]objAddr
+	trees   map[string]*progTree
 }
 
 func (b *progBuilder) object(pt *progTree, n *lnode, owner string, p []string) *schema.ObjectSchema {
@@ -107,7 +169,7 @@ func (b *progBuilder) build(pt *progTree, n *lnode, owner string, p []string) sc
 		return schema.NewIntSchema(nil, nil, nil)
 	case "ref":
 		r := schema.NewNamespacedRefSchema(n.ID, n.NS, nil)
-		pt.refs = append(pt.refs, refRec{pstr(p), r})
+		pt.refs[pstr(p)] = r
 		return r
 	case "list":
 		return schema.NewListSchema(b.build(pt, n.Item, owner, with(p, "[]")), nil, nil)
@@ -123,7 +185,15 @@ func (b *progBuilder) build(pt *progTree, n *lnode, owner string, p []string) sc
 		return schema.NewOneOfStringSchema[any](members, n.Disc, false)
 	case "scope":
 		os := b.scopeObjects(pt, n, owner, p)
-		sc := schema.NewScopeSchema(os[0], os[1:]...)
+		var sc *schema.ScopeSchema
+		if b.literal {
+			sc = &schema.ScopeSchema{ObjectsValue: map[string]*schema.ObjectSchema{}, RootValue: n.Root}
+			for _, o := range os {
+				sc.ObjectsValue[o.ID()] = o
+			}
+		} else {
+			sc = schema.NewScopeSchema(os[0], os[1:]...)
+		}
 		pt.scopes[pstr(p)] = sc
 		return sc
 	}
@@ -165,6 +235,35 @@ func (b *progBuilder) step(st []string) {
 	}
 	pt := b.trees[st[1]]
 	switch st[0] {
+	case "literal":
+		b.literal = true
+		pt.top = b.build(pt, pt.node, st[1], nil)
+		b.literal = false
+	case "replace":
+		// ObjectsValue[id] = a new object, on the scope at st[2]
+		var obj lnode
+		if err := json.Unmarshal([]byte(st[4]), &obj); err != nil {
+			panic("harness: bad replacement object: " + err.Error())
+		}
+		sc := pt.scopes[st[2]]
+		var sp []string
+		if st[2] != "" {
+			sp = strings.Split(st[2], "/")
+		}
+		if old, ok := sc.ObjectsValue[st[3]]; ok {
+			// the replaced object keeps existing for whoever still points at it: a stale identity
+			b.objs[old] = objAddr{"stale", st[2], st[3]}
+		}
+		prefix := pstr(with(sp, st[3])) + "/"
+		for path := range pt.refs {
+			if strings.HasPrefix(path, prefix) {
+				delete(pt.refs, path)
+			}
+		}
+		no := b.object(pt, &obj, st[1], with(sp, st[3]))
+		b.objs[no] = objAddr{st[1], st[2], st[3]}
+		sc.ObjectsValue[st[3]] = no
+		setObject(pt.node, st[2], st[3], &obj)
 	case "applySub":
 		pt.top.ApplyNamespace(b.tableMinus(st[3], st[4:]), st[2])
 	case "applyAtSub":
@@ -205,7 +304,7 @@ func runProg(c *progCase) (res progResult) {
 	}()
 	b := &progBuilder{objs: map[*schema.ObjectSchema]objAddr{}, trees: map[string]*progTree{}}
 	for _, t := range c.Trees {
-		b.trees[t.Name] = &progTree{node: t.Tree, scopes: map[string]*schema.ScopeSchema{}}
+		b.trees[t.Name] = &progTree{node: copyNode(t.Tree), refs: map[string]*schema.RefSchema{}, scopes: map[string]*schema.ScopeSchema{}}
 	}
 	inconsistent := ""
 	for i, st := range c.Steps {
@@ -218,9 +317,9 @@ func runProg(c *progCase) (res progResult) {
 			}
 			all := true
 			for _, r := range pt.refs {
-				if !r.ref.ObjectReady() {
+				if !r.ObjectReady() {
 					all = false
-				} else if o, ok := r.ref.GetObject().(*schema.ObjectSchema); !ok || o == nil {
+				} else if o, ok := r.GetObject().(*schema.ObjectSchema); !ok || o == nil {
 					all = false
 				}
 			}
@@ -232,7 +331,7 @@ func runProg(c *progCase) (res progResult) {
 	obs := &progObs{}
 	for _, t := range c.Trees {
 		pt := b.trees[t.Name]
-		lb := &linkBuilder{objs: b.objs, refs: pt.refs}
+		lb := &linkBuilder{objs: b.objs, refs: pt.orderedRefs(t.Name)}
 		obs.Trees = append(obs.Trees, [3]any{t.Name, lb.observe(), pt.top.ValidateReferences() == nil})
 	}
 	return progResult{R: "ok", V: obs, Inconsistent: inconsistent}
@@ -308,8 +407,8 @@ func progOracle(c *progCase) (map[string][]*oref, bool) {
 	refs := map[string][]*oref{}
 	nodes := map[string]*lnode{}
 	for _, t := range c.Trees {
-		refs[t.Name] = collectRefs(t.Tree, t.Name)
-		nodes[t.Name] = t.Tree
+		nodes[t.Name] = copyNode(t.Tree)
+		refs[t.Name] = collectRefs(nodes[t.Name], t.Name)
 	}
 	self := func(owner string, r *oref) bool {
 		if r.ids == nil || !r.ids[r.id] {
@@ -331,6 +430,36 @@ func progOracle(c *progCase) (map[string][]*oref, bool) {
 			st = st[1:]
 		}
 		owner := st[1]
+		switch st[0] {
+		case "literal":
+			continue // plain values: nothing is linked
+		case "replace":
+			var obj lnode
+			if err := json.Unmarshal([]byte(st[4]), &obj); err != nil {
+				panic(err)
+			}
+			setObject(nodes[owner], st[2], st[3], &obj)
+			old := map[string][]string{}
+			for _, r := range refs[owner] {
+				old[r.path] = r.target
+			}
+			prefix := st[2] + "/" + st[3] + "/"
+			if st[2] == "" {
+				prefix = st[3] + "/"
+			}
+			refs[owner] = collectRefs(nodes[owner], owner)
+			for _, r := range refs[owner] {
+				if strings.HasPrefix(r.path, prefix) {
+					continue // a reference of the new object: not linked yet
+				}
+				r.target = old[r.path]
+				if t := r.target; t != nil && t[0] == owner && t[1] == st[2] && t[2] == st[3] {
+					// still points at the object that was replaced, until the namespace is applied again
+					r.target = []string{"stale", st[2], st[3]}
+				}
+			}
+			continue
+		}
 		// a recovered failure leaves every reference as it was
 		var saved [][]string
 		for _, r := range refs[owner] {
@@ -437,9 +566,9 @@ var schedCursor int
 
 // universe of link trees: returns the trees and, for the tree under test, the path of the embedded
 // scope S ("" when the tree under test is S itself).
-func genLinkUniverse(g *hx.Gen) (trees []namedTree, embedAt string) {
+func genLinkUniverse(g *hx.Gen) (trees []namedTree, embedAt string, lg *linkGen) {
 	r := g.R
-	lg := &linkGen{g: g, extIDs: map[string][]string{}, maxDeep: 1}
+	lg = &linkGen{g: g, extIDs: map[string][]string{}, maxDeep: 1 + r.Intn(2)}
 	if r.Intn(12) == 0 {
 		lg.dangle = 0.05
 	}
@@ -490,7 +619,7 @@ func genLinkUniverse(g *hx.Gen) (trees []namedTree, embedAt string) {
 		}
 		main = o
 	}
-	return []namedTree{{"", main}, {"X", x}, {"Y", y}, {"YX", yx}, {"X2", x2}}, embedAt
+	return []namedTree{{"", main}, {"X", x}, {"Y", y}, {"YX", yx}, {"X2", x2}}, embedAt, lg
 }
 
 func schedSteps(tree string, at string, sched []string) [][]string {
@@ -511,6 +640,49 @@ func schedSteps(tree string, at string, sched []string) [][]string {
 			out = append(out, []string{"applyAt", tree, at, sy, sy})
 		}
 	}
+	return out
+}
+
+type nestedScope struct {
+	path string
+	ids  []string
+}
+
+// nestedScopes lists the scopes below the top scope of a description.
+func nestedScopes(n *lnode) []nestedScope {
+	var out []nestedScope
+	var walk func(n *lnode, p []string, top bool)
+	walk = func(n *lnode, p []string, top bool) {
+		if n == nil {
+			return
+		}
+		switch n.T {
+		case "list":
+			walk(n.Item, with(p, "[]"), false)
+		case "map":
+			walk(n.V, with(p, "{v}"), false)
+		case "obj":
+			for _, k := range n.Props {
+				walk(k.N, with(p, k.Name), false)
+			}
+		case "oneOf":
+			for _, k := range n.Members {
+				walk(k.N, with(p, k.Name), false)
+			}
+		case "scope":
+			if !top {
+				ns := nestedScope{path: pstr(p)}
+				for _, k := range n.Objs {
+					ns.ids = append(ns.ids, k.Name)
+				}
+				out = append(out, ns)
+			}
+			for _, k := range n.Objs {
+				walk(k.N, with(p, k.Name), false)
+			}
+		}
+	}
+	walk(n, nil, true)
 	return out
 }
 
@@ -585,7 +757,7 @@ func withFailures(r interface{ Intn(int) int }, steps [][]string, trees []namedT
 
 func groupSched(s *sink, g *hx.Gen) {
 	r := g.R
-	trees, embedAt := genLinkUniverse(g)
+	trees, embedAt, lg := genLinkUniverse(g)
 	for k := 0; k < 12; k++ {
 		sched := schedules[schedCursor%len(schedules)]
 		schedCursor++
@@ -597,10 +769,46 @@ func groupSched(s *sink, g *hx.Gen) {
 			c.Steps = append(c.Steps, []string{"self", "X"}, []string{"apply", "X", "Y", "YX"})
 		}
 		note := "sched:" + strings.Join(sched, ",")
-		if embedAt == "" {
+		nested := nestedScopes(trees[0].Tree)
+		switch {
+		case k%4 == 2:
+			// every scope of the tree under test is a plain &ScopeSchema{} value: nothing has applied
+			// itself, the nested scopes are linked only by what the root hands down
+			c.Steps = append(c.Steps, []string{"literal", ""})
+			c.Steps = append(c.Steps, schedSteps("", "", sched)...)
+			if r.Intn(2) == 0 {
+				c.Steps = append(c.Steps, []string{"self", ""})
+			}
+			note = "literal:" + note
+			s.stats["sched:literal"]++
+		case k%4 == 3 && len(nested) > 0:
+			// an object of a NESTED scope is replaced (or added), then the ROOT applies itself
+			c.Steps = append(c.Steps, []string{"build", ""})
+			cut := r.Intn(len(sched) + 1)
+			c.Steps = append(c.Steps, schedSteps("", "", sched[:cut])...)
+			ns := nested[r.Intn(len(nested))]
+			id := ns.ids[r.Intn(len(ns.ids))]
+			if r.Intn(4) == 0 {
+				id = "N1"
+			}
+			saveDeep, saveDangle := lg.maxDeep, lg.dangle
+			lg.maxDeep, lg.dangle = 0, 0
+			obj := lg.object(id, 2, ns.ids, nil, true, 2)
+			lg.maxDeep, lg.dangle = saveDeep, saveDangle
+			ob, _ := json.Marshal(obj)
+			c.Steps = append(c.Steps, []string{"replace", "", ns.path, id, string(ob)})
+			if r.Intn(4) == 0 {
+				// the nested scope itself first
+				c.Steps = append(c.Steps, []string{"applyAt", "", ns.path, "", ""})
+			}
+			c.Steps = append(c.Steps, []string{"self", ""})
+			c.Steps = append(c.Steps, schedSteps("", "", sched[cut:])...)
+			note = "replace:" + note
+			s.stats["sched:nested-replacement"]++
+		case embedAt == "":
 			c.Steps = append(c.Steps, []string{"build", ""})
 			c.Steps = append(c.Steps, schedSteps("", "", sched)...)
-		} else {
+		default:
 			// S is constructed and linked first, then embedded into the newly constructed O
 			cut := r.Intn(len(sched) + 1)
 			c.Steps = append(c.Steps, []string{"buildKids", ""})
@@ -614,7 +822,7 @@ func groupSched(s *sink, g *hx.Gen) {
 			note = "embed:" + note
 			s.stats["sched:embedded"]++
 		}
-		if k%2 == 1 {
+		if k%4 == 1 {
 			// FAILING applications the caller recovers from, anywhere in the history
 			c.Trees = append(append([]namedTree{}, trees...), namedTree{"E", emptyishScope()})
 			c.Steps = append([][]string{{"build", "E"}}, withFailures(r, c.Steps, trees)...)
@@ -699,6 +907,9 @@ func splitNS(id string) (ns, rest string) {
 
 type nsBuilder struct {
 	refs []*schema.RefSchema
+	// plainNested: scopes below the top one are plain &ScopeSchema{} values that never applied themselves
+	plainNested bool
+	depth       int
 }
 
 func (b *nsBuilder) object(t *hx.Ty) *schema.ObjectSchema {
@@ -758,7 +969,16 @@ func (b *nsBuilder) build(t *hx.Ty) schema.Type {
 		b.refs = append(b.refs, r)
 		return r
 	case "scope":
+		b.depth++
 		os := b.scopeObjects(t)
+		b.depth--
+		if b.plainNested && b.depth > 0 {
+			sc := &schema.ScopeSchema{ObjectsValue: map[string]*schema.ObjectSchema{}, RootValue: t.Root}
+			for _, o := range os {
+				sc.ObjectsValue[o.ID()] = o
+			}
+			return sc
+		}
 		return schema.NewScopeSchema(os[0], os[1:]...)
 	}
 	return t.Build()
@@ -766,6 +986,7 @@ func (b *nsBuilder) build(t *hx.Ty) schema.Type {
 
 // nsUniverse: descriptions of S, X, Y, YX and who binds which namespace name to which scope.
 type nsUniverse struct {
+	bg    *nsBehGen // generator state for objects of the tree under test
 	trees map[string]*hx.Ty
 	bind  map[string]map[string]string // tree -> namespace -> tree
 }
@@ -935,6 +1156,7 @@ func genNSUniverse(g *hx.Gen) *nsUniverse {
 	u.trees["X2"] = bg.scopeWithIDs(scopeIDs(u.trees["X"]), 1)
 	bg.foreign = map[string][]string{"X": scopeIDs(u.trees["X"]), "Y": scopeIDs(u.trees["Y"])}
 	u.trees[""] = bg.scope(1)
+	u.bg = bg
 	return u
 }
 
@@ -1147,6 +1369,47 @@ func groupNSBehave(s *sink, g *hx.Gen) {
 			continue
 		}
 		s.stats["nsbehave:worlds"]++
+		if embed != 0 && r.Intn(2) == 0 {
+			// an object of the NESTED scope S is replaced (or added) after O was constructed; then the
+			// ROOT applies itself (and the namespaces, for the new object's own references)
+			sDesc := copyTy(u.trees[""])
+			ids := scopeIDs(sDesc)
+			id := ids[r.Intn(len(ids))]
+			if r.Intn(4) == 0 {
+				id = "N"
+				ids = append(ids, id)
+			}
+			objTy := u.bg.object(id, 2, scopeIDs(sDesc))
+			replaced := false
+			for i, o := range sDesc.Objs {
+				if o.ID == id {
+					sDesc.Objs[i].Ty = objTy
+					replaced = true
+				}
+			}
+			if !replaced {
+				sDesc.Objs = append(sDesc.Objs, hx.NamedObj{ID: id, Ty: objTy})
+			}
+			res := hx.Guard(func() hx.Result {
+				w.s.ObjectsValue[id] = (&nsBuilder{}).object(objTy)
+				w.o.ApplySelf()
+				xNow := w.x
+				if u.bind[""]["X"] == "X2" {
+					xNow = w.x2
+				}
+				w.o.ApplyNamespace(xNow.Objects(), "X")
+				w.o.ApplyNamespace(w.y.Objects(), "Y")
+				return hx.Result{R: "ok"}
+			})
+			if res.R != "ok" {
+				s.finding(Finding{Prop: "C14", What: "replacing an object of a nested scope and applying the root again panicked (" + note + "): " + res.Msg})
+				continue
+			}
+			inlS = u.lexInline(sDesc, "")
+			rebound = false // the inputs for the other binding were made for the old object
+			note += ":nested-object-replaced"
+			s.stats["nsbehave:nested-replacement"]++
+		}
 		var impl schema.Type = w.s
 		model := inlS
 		if embed != 0 {
